@@ -16,12 +16,13 @@ import (
 // new part of the detector's log is read and attributed to that execution.
 
 type raceReport struct {
-	Text     string
-	TopA     string // function of the first repository frame of each access
-	TopB     string
-	FileA    string
-	FileB    string
-	Relevant bool // both accesses have a repository (non-harness, non-engine) frame on top
+	Text      string
+	TopA      string // function of the first repository frame of each access
+	TopB      string
+	FileA     string
+	FileB     string
+	Unwinding bool
+	Relevant  bool // both accesses have a repository (non-harness, non-engine) frame on top
 }
 
 var raceLogOff int64
@@ -86,6 +87,11 @@ func parseRaceReport(blk string) raceReport {
 		if !isAccess {
 			continue
 		}
+		if strings.Contains(t, "runtime.Goexit()") {
+			// an access made by deferred program code while the engine unwinds a thread at the end of an execution
+			// (shim locks are no-ops then): not a behaviour of the program
+			r.Unwinding = true
+		}
 		lines := strings.Split(t, "\n")
 		fn, file := "", ""
 		for i := 0; i+1 < len(lines); i++ {
@@ -124,7 +130,7 @@ func parseRaceReport(blk string) raceReport {
 			}
 			return !strings.HasPrefix(base, "zz_verif_") && !strings.HasSuffix(base, "_test.go") && !strings.Contains(p, "/internal/verif/")
 		}
-		r.Relevant = inRepo(r.FileA) && inRepo(r.FileB)
+		r.Relevant = inRepo(r.FileA) && inRepo(r.FileB) && !r.Unwinding
 	}
 	return r
 }
